@@ -2,7 +2,8 @@
 // match the contents, lists are ordered (nonce ascending, gas price descending) without duplicates, and after each
 // addition the sender's count and byte limits hold.
 // Monitor shape: INV (walker over the verif-hook snapshot at quiescent points; after every operation in the
-// sequential phase, after all clients stopped in the concurrent phase) + RACE (reports are evidence only).
+// sequential phase, after all clients stopped in the concurrent phase, after every driven pair of operations on one
+// sender - see driven.go) + RACE (reports are evidence only).
 package main
 
 import (
@@ -174,6 +175,7 @@ type seqRun struct {
 	held                         bool // the harness holds the sweeping mutex: the asynchronous sweep of the last selection is delayed
 	step                         int
 	knownReported, sweepReported bool
+	wrap                         func(txkit.TxSpec) *txcache.WrappedTransaction // nil: spec.Wrap (the driven phase hands decorated transactions to the cache)
 }
 
 func (q *seqRun) report(f finding, snap txcache.VerifSnapshotData) {
@@ -273,7 +275,11 @@ func (q *seqRun) check(kind int, addedSender int, inserted bool) bool {
 }
 
 func (q *seqRun) add(spec txkit.TxSpec, dup bool) bool {
-	ok, add := q.cache.AddTx(spec.Wrap())
+	w := spec.Wrap()
+	if q.wrap != nil {
+		w = q.wrap(spec)
+	}
+	ok, add := q.cache.AddTx(w)
 	q.added = append(q.added, spec)
 	q.trace = append(q.trace, fmt.Sprintf("%d AddTx(%s) -> %v,%v", q.step, spec.Hash(), ok, add))
 	q.r.Count("op_add", 1)
@@ -646,12 +652,13 @@ func concurrentRound(r *vk.Run, c *vk.Case, partitioned bool, opsPerClient int) 
 func main() {
 	_ = logger.SetLogLevel("*:NONE")
 	r := vk.Start("C25")
-	r.Rule("sequential: per case one TxCache with small thresholds (eviction on in 2/3 of the cases), 4..8 senders, nonces 0..12, 3 gas prices, sizes 100..400 plus large ones (70..100% of the per-sender byte limit, so one always fits), random AddTx (10% duplicates) / RemoveTxByHash / SelectTransactions / NotifyAccountNonce, all invariants after every operation at quiescence; a quarter of the selections have their asynchronous sweep delayed over the next removals/notifications (the harness holds the sweeping mutex), and half of the cases contain a scripted sender life cycle (initial nonce gap, 3 failed selections, collected for sweeping, all its transactions removed by hash before the delayed sweep runs, sender comes back, more selections); non-trivial when a per-sender eviction, a capacity eviction or a sweep happened; distinct = (config class, set of events). concurrent: 4..8 clients on one cache, partitioned rounds (own senders, no eviction/sweeps: all invariants) and contended rounds (shared senders and transactions, eviction and sweeps: list order, counters, limits), checked after the clients stopped")
+	r.Rule("sequential: per case one TxCache with small thresholds (eviction on in 2/3 of the cases), 4..8 senders, nonces 0..12, 3 gas prices, sizes 100..400 plus large ones (70..100% of the per-sender byte limit, so one always fits), random AddTx (10% duplicates) / RemoveTxByHash / SelectTransactions / NotifyAccountNonce, all invariants after every operation at quiescence; a quarter of the selections have their asynchronous sweep delayed over the next removals/notifications (the harness holds the sweeping mutex), and half of the cases contain a scripted sender life cycle (initial nonce gap, 3 failed selections, collected for sweeping, all its transactions removed by hash before the delayed sweep runs, sender comes back, more selections); non-trivial when a per-sender eviction, a capacity eviction or a sweep happened; distinct = (config class, set of events). concurrent: 4..8 clients on one cache, partitioned rounds (own senders, no eviction/sweeps: all invariants) and contended rounds (shared senders and transactions, eviction and sweeps: list order, counters, limits), checked after the clients stopped. driven pairs (driven.go): per case one cache without capacity eviction, 2 senders kept filled up to their per-sender limit (half of the cases with equal transaction sizes, so that the byte limit binds exactly), 3..6 pairs of operations (add/add, remove/add, add/remove, remove/remove; 5/6 on the same sender) issued from two goroutines: the first is parked by the transaction decorator at a chosen GetSndAddr call (outside the list lock: before the sender lookup, or between the list's eviction and the clean-up of the hash index) or GetNonce call (inside the list's critical section), the second then runs until it returns or blocks on the list lock, then the first resumes; all invariants at quiescence after every pair and after the sequential additions/removals in between; distinct = (pair kind, hand-over point, outcome of the second operation, change of the list length)")
 	r.Assume("quiescence = no client running and the pending sweep completed: the harness runs sweepSweepable synchronously through the verif hook (no waiting on the scheduler) and reads under the sweeping mutex; after a completed sweep with no selection running the list of collected senders must be empty (sweepSweepable re-initialises it at the end of every sweep)",
 		"while a sweep is delayed the harness never adds transactions: re-creating a collected sender before its sweep runs is a concurrent interleaving of the asynchronous sweep with AddTx that the code does not claim to handle",
 		"Clear() is not in the operation set",
 		"contended concurrent rounds: the code itself documents that the two indexes may diverge when additions, removals and evictions of the same sender interleave (TxCache.AddTx / RemoveTxByHash comments); the divergence is counted in the evidence, not reported",
 		"capacity eviction picks senders in Go map order inside a score bucket, so a replay may evict other senders; recorded details are self-contained",
+		"driven pairs: the two operations of a pair never concern the same transaction, additions use transactions never given to the cache before, and a removal paired with an addition of the same sender only happens when the sender holds at least 2 transactions (removing a sender's last transaction while an addition for it is in flight, and adding/removing one transaction from two goroutines, are interleavings for which the code documents that the indexes may diverge); whether the second operation is blocked is read from the runtime's goroutine dump (state of its goroutine), never from elapsed time; with mixed sizes a sender found over its byte limit after a pair is only counted (which addition evicted what is not observable), with equal sizes it is a violation",
 		"race-detector reports are evidence only")
 	r.MinShapes(40)
 
@@ -659,6 +666,7 @@ func main() {
 	seqOps := r.N(80, 120)
 	concCases := r.N(160, 1600)
 	concOps := r.N(120, 250)
+	drvCases := r.N(1000, 20000)
 
 	t0 := time.Now()
 	r.Parallel(seqCases, func(c *vk.Case) {
@@ -668,7 +676,7 @@ func main() {
 	})
 	tSeq := time.Since(t0).Seconds()
 	// concurrent rounds: a few at a time so that the clients of a round really run in parallel
-	if r.ReplayCase < 0 || r.ReplayCase >= seqCases {
+	if r.ReplayCase < 0 || (r.ReplayCase >= seqCases && r.ReplayCase < seqCases+concCases) {
 		r.ParallelW(seqCases+concCases, 3, func(c *vk.Case) {
 			if c.Idx < seqCases {
 				return
@@ -676,8 +684,24 @@ func main() {
 			concurrentRound(r, c, (c.Idx-seqCases)%2 == 0, concOps)
 		})
 	}
+	tConc := time.Since(t0).Seconds() - tSeq
+	// driven pairs: two goroutines per case, only one of them runs at a time (hand-over by handshake)
+	if r.ReplayCase < 0 || r.ReplayCase >= seqCases+concCases {
+		r.Parallel(seqCases+concCases+drvCases, func(c *vk.Case) {
+			if c.Idx >= seqCases+concCases {
+				drivenCase(r, c)
+			}
+		})
+	}
 	if r.ReplayCase < 0 {
-		r.Extra("phase_wall_s", map[string]float64{"sequential": tSeq, "concurrent": time.Since(t0).Seconds() - tSeq}) // timing only, no oracle reads it
+		if r.Violations() == 0 {
+			for _, k := range []string{"drv_handover_B-returned-while-A-parked", "drv_handover_B-blocked-on-lock-while-A-parked", "drv_window_two_evicting_adds_interleaved", "drv_window_add_queued_behind_removal_of_the_eviction_candidate"} {
+				if r.Counter(k) < 20 {
+					r.Inconclusive(fmt.Sprintf("driven phase: counter %s is %d (floor 20): the hand-over points were not reached", k, r.Counter(k)))
+				}
+			}
+		}
+		r.Extra("phase_wall_s", map[string]float64{"sequential": tSeq, "concurrent": tConc, "driven": time.Since(t0).Seconds() - tSeq - tConc}) // timing only, no oracle reads it
 		races := vk.CollectRaces()
 		if races == nil {
 			races = []vk.RaceReport{}
